@@ -13,6 +13,7 @@ all 64 start offsets.
 -/
 import Nebula.Lemmas.CsumAVX2
 import Nebula.Lemmas.CsumSpec
+import Nebula.Lemmas.CsumBridge
 
 namespace Nebula.Props.C25
 open Nebula.Csum Nebula.ChecksumAVX2 Nebula.Spec
@@ -67,6 +68,13 @@ theorem concat_even (a b : List UInt8) (seed : Nat) (h : a.length % 2 = 0) :
   checksum_append a b seed h
 
 example : ([1, 2, 3, 4] : List UInt8).length % 2 = 0 := by decide
+
+/-- One checksum theory in the project: the RFC 1071 definitions local to the C21 engines
+(`Spec/PktCsum`: `sum16`, closed-form `fold16`, Boolean `verifies`) are the shared `Base/Csum` ones. -/
+theorem one_checksum_theory (b : List UInt8) (n pseudo : Nat) :
+    Spec.PktCsum.sum16 b = wsum b ∧ Spec.PktCsum.fold16 n = fold16 n ∧
+      (Spec.PktCsum.verifies b pseudo = true ↔ verifies b pseudo) :=
+  ⟨Lemmas.CsumBridge.sum16_eq_wsum b, Lemmas.CsumBridge.fold16_eq n, Lemmas.CsumBridge.verifies_iff b pseudo⟩
 
 /-- sanity: the specification on the RFC 1071 §3 example bytes (00 01 f2 03 f4 f5 f6 f7 → ddf2). -/
 example : Rfc1071.checksum [0x00, 0x01, 0xf2, 0x03, 0xf4, 0xf5, 0xf6, 0xf7] 0 = 0xddf2 := by decide
